@@ -21,6 +21,10 @@ CLAIMED = {
         text='Deductive proof that Ty::get_max_int_size accepts exactly the u64 literals that fit each integer type (all widths, distinct wrappers), and that finalize_int maps {int}/{uint} to i32. Partial: literal text parsing and the checker\'s call sites are outside the verifier\'s reach.',
         note='Partial claim: only the range limit and the defaulting clause. lower_int_literal / escapes / float literals are not under contract; isize/usize are taken as 64-bit.',
         ref='DESIGN.md 5 (C09)'),
+    'C13': dict(
+        text='Deductive proof over the real text of Ty::can_fit_into and Ty::is_functionally_equivalent_to (arms outside the Verus dialect elided and treated as unknown): for all types, two nominal types of the same kind with different uids never mix; nothing nominal fits into a different enum variant; a distinct/variant fits neither a named struct, nor a foreign enum, nor its own (plain) underlying type; a named struct does not fit an enum; a variant fits its own enum. The clause "variant / named struct into a distinct wrapper" fails by design and is a recorded known finding.',
+        note='Partial: implicit-acceptance clause only (can_fit_into). Ty::max, can_cast_to and the checker call sites (expect_match) are not under contract; `==` on Ty is assumed structural; elided arms: anonymous struct -> named struct, function types.',
+        ref='DESIGN.md 5 (C13)'),
     'C17': dict(
         text='Deductive proof over the real text of calc_single, StructLayout::new, padding_needed_for, stride, align_shift: every write to the layout tables satisfies the C17 clauses (alignment power of two <= 8, C struct offsets, array = len*stride, distinct/variant = underlying, ?ptr = ptr, tag after largest payload) for all types in the stated domain.',
         note='Trusted: global table modelled rely/guarantee (reads return what calc_single wrote), Intern canonicity, listed rewrites. Domain: language int/float widths, nested sizes <= 1 GiB. The host C compiler comparison is not part of the proof.',
@@ -59,7 +63,6 @@ NOT_APPLICABLE = {
 # until the check exists (a manifest entry must never point at a check that cannot run)
 PENDING = {
     'C10': 'unit not built yet (index / #unwrap guards)',
-    'C13': 'unit not built yet (nominal arms of can_fit_into / max)',
     'C19': 'unit not built yet (SysV classification)',
     'C25': 'unit not built yet (LineIndex::line_col)',
     'C26': 'unit not built yet (TopoSort representation invariant)',
